@@ -193,15 +193,16 @@ func (r *Raft) VerifHeartbeat() {
 	r.sendAppendEntriesToPeers()
 }
 
-// VerifLeadAgain makes this node a candidate of the next term and then the leader of it: what
-// election() followed by a won vote does. Requests of an earlier leadership that are still in
-// flight stay in flight.
+// VerifLeadAgain takes this node through what a lost and regained leadership does: it learns of
+// the next term from node 2 and becomes a follower, then a candidate of the term after that, then
+// its leader. Requests of the earlier leadership that are still in flight stay in flight.
 func (r *Raft) VerifLeadAgain() {
 	r.mu.Lock()
 	defer r.mu.Unlock()
 	if r.state == Shutdown {
 		return
 	}
+	r.becomeFollower("2", r.currentTerm+1)
 	r.becomeCandidate()
 	r.becomeLeader()
 }
